@@ -49,7 +49,7 @@ func famErrors(w *World) {
 	if hops > 0 {
 		via = fmt.Sprintf("relay x%d", hops)
 	}
-	sub := scn(6)
+	sub := scn(7)
 	w.describe("errors hops=%d sub-scenario=%d", hops, sub)
 	mk := func(s CallSpec) *CallRec {
 		s.From, s.To, s.Service, s.Via = cli, target, srv.Service, via
@@ -173,6 +173,51 @@ func famErrors(w *World) {
 		if hold.Err != nil {
 			w.probe("C20.holder-failed")
 		}
+	case 6: // the response has arrived completely, then the peer goes away - and the caller collects late
+		// The node the caller talks to closes gracefully as soon as the handler is done: its
+		// connection flushes the response and ends. The caller is busy meanwhile (before its
+		// first read, or between pieces of a many-fragment response); when it gets round to
+		// reading, everything it needs is already there and the end of the connection must not
+		// replace it by a network error.
+		var r *CallRec
+		if scnChance(1, 2) {
+			r = mk(CallSpec{Mode: "syserr", Code: []int{1, 3, 4, 5, 6, 7, 8, 0x40}[scn(8)], Pad2: scn(500), Len3: drawSize(50000), ReadPause: time.Duration(100+scn(400)) * w.Grid})
+			r.Spec.Msg = longMsg(r.Spec.Tag, []int{0, 9, 300, 20000}[scn(4)])
+			r.Req2 = append([]byte(r.cmd()+"\n"), payload(r.Spec.Tag, 2, r.Spec.Pad2)...)
+			r.Req2Dest = r.Req2
+		} else {
+			r = mk(CallSpec{Mode: "apperr", Pad2: scn(500), Len3: drawSize(50000), Rs2: drawSize(60000), Rs3: 70000 + drawSize(300000), ChunkPause: time.Duration(20+scn(100)) * w.Grid})
+			if scnChance(1, 2) {
+				r.Spec.Mode = "echo"
+				r.Req2 = append([]byte(r.cmd()+"\n"), payload(r.Spec.Tag, 2, r.Spec.Pad2)...)
+				r.Req2Dest = r.Req2
+			}
+		}
+		firstHop := srv
+		if hops > 0 {
+			firstHop = relays[0]
+		}
+		gap := time.Duration(scn(20)) * w.Grid
+		w.describe("call %s mode=%s rs=%d/%d readPause=%v chunkPause=%v; %s closes %v after the handler is done", r.Spec.Tag, r.Spec.Mode, r.Spec.Rs2, r.Spec.Rs3, r.Spec.ReadPause, r.Spec.ChunkPause, firstHop.Name, gap)
+		w.tasks(func() { w.Call(r) }, func() {
+			for i := 0; i < 20000 && r.H.ExitEv == 0; i++ {
+				sleep(w.Grid)
+			}
+			sleep(gap)
+			w.Net.Fired["app.close-after-response"]++
+			firstHop.Close()
+		})
+		w.eval("C20.late-collection-after-peer-close")
+		if r.H.ExitEv != 0 && r.H.RespErr == nil {
+			switch r.Spec.Mode {
+			case "syserr":
+				w.checkSystemError(r, srv, hops)
+			default:
+				if r.Err != nil {
+					w.violate("C20", "delivered-response-lost", "call %s (%s, mode %s): the handler's complete response was sent before %s closed its connection gracefully, the caller collected it late and got %s", r.Spec.Tag, via, r.Spec.Mode, firstHop.Name, errStr(r.Err))
+				}
+			}
+		}
 	case 5: // relay-originated errors / protocol error from a raw peer
 		if hops > 0 {
 			kind := scn(3)
@@ -288,6 +333,7 @@ func famErrors(w *World) {
 		}
 	}
 	w.QuiesceStarted = true
+	w.stopLags()
 	sleep(25 * time.Second)
 	for _, spy := range spies {
 		spy.checkEnded()
